@@ -58,7 +58,9 @@ type Reader struct {
 	Data  []byte
 	Limit int  // bytes available before EOF / fault (<= len(Data))
 	Fault bool // at Limit return ErrInjected instead of io.EOF
-	Ch    Chunker
+	// FaultErr, if set, is returned instead of ErrInjected.
+	FaultErr error
+	Ch       Chunker
 
 	Pos      int // bytes delivered so far
 	Reads    int
@@ -89,6 +91,9 @@ func (r *Reader) Read(p []byte) (int, error) {
 			panic(hangSentinel{})
 		}
 		if r.Fault {
+			if r.FaultErr != nil {
+				return 0, r.FaultErr
+			}
 			return 0, ErrInjected
 		}
 		return 0, io.EOF
